@@ -95,7 +95,16 @@ dot = F("dot", Key, Key, Key)        # f"{parent}.{key}"
 restrict = F("restrict", Opt, KSet, Opt)  # ghost
 fpF = F("fpF", Opt, KSet, Val)       # json.dumps(sorted pairs).encode()  (ghost view)
 haskey_top = F("haskey_top", Opt, Key, B)   # `k in o` / o.keys() (top-level)
-dget = F("dget", Opt, Key, Val)      # o.get(k) (top-level lookup; None when absent)
+dget = F("dget", Opt, Key, Val)
+topkeys = F("topkeys", Opt, KSet)     # set(o.keys())      # o.get(k) (top-level lookup; None when absent)
+
+# structure of JSON container values and the contract of option._templated_keys (keys referenced by templates inside a value)
+vnchild = F("vnchild", Val, I)
+vchild = F("vchild", Val, I, Val)
+TKok = F("TKok", Val, Opt, B)
+TKset = F("TKset", Val, Opt, KSet)
+TKexc = F("TKexc", Val, Opt, Exc)
+TXset = F("TXset", Val, Opt, KSet)      # explain variant (never raises)
 
 # --------------------------------------------------------------------------- interface spec functions
 EVok = F("EVok", Ev, Opt, B)
@@ -252,6 +261,7 @@ assume("OptTheory.get_dotted_key", "get_dotted_key(k,o) returns get(o,k) if has(
 assume("OptTheory.mix", "confectioner.mix(a,b) is pure; has(mix(a,b),k) <=> has(b,k) or (has(a,k) and not shadow(b,k)); "
        "get(mix(a,b),k) = get(b,k) when present in b and not both dicts; = get(a,k) when absent from b and unshadowed")
 assume("OptTheory.mix.sub", "sub(o2,o) => sub(mix(o2,P), mix(o,P)); and sub(mix(D,o2), mix(D,o)) when no scalar of o shadows a key of D")
+assume("OptTheory.ext", "a pruning of a dictionary that keeps the whole subtree under every top-level key is that dictionary")
 assume("OptTheory.set_dotted_key", "set_dotted_key(k,v,{}) yields the singleton tree single(k,v)")
 assume("OptTheory.resolve", "confectioner.resolve(v,o): template-free values are returned unchanged; otherwise KeyError(k)/TypeError "
        "for the first unresolvable referenced key, else a value depending on o only through the subtrees at RD(v,o)")
@@ -338,6 +348,10 @@ def opt_axioms():
     ax.append(z3.ForAll([o, k], z3.Implies(top(k), haskey_top(o, k) == has(o, k)), patterns=[haskey_top(o, k)]))
     ax.append(z3.ForAll([o, k], z3.Implies(haskey_top(o, k), top(k)), patterns=[haskey_top(o, k)]))
     ax.append(z3.ForAll([o, k], dget(o, k) == z3.If(haskey_top(o, k), get(o, k), NONE), patterns=[dget(o, k)]))
+    ax.append(z3.ForAll([o, k], z3.IsMember(k, topkeys(o)) == haskey_top(o, k), patterns=[z3.IsMember(k, topkeys(o))]))
+    # extensionality through the top-level keys: a pruning that keeps every top-level subtree is the same dictionary
+    ax.append(z3.ForAll([o, o2], z3.Implies(z3.And(sub(o2, o), agreeP(o, o2, topkeys(o))), o2 == o),
+                        patterns=[z3.MultiPattern(sub(o2, o), topkeys(o))]))
     # restrict (ghost)
     ax.append(z3.ForAll([o, S], sub(restrict(o, S), o), patterns=[restrict(o, S)]))
     ax.append(z3.ForAll([o, S, k], z3.Implies(z3.And(z3.IsMember(k, S), has(o, k)),
@@ -440,9 +454,12 @@ def law_L5(e, o):
     b = z3.Implies(z3.And(EXok(e, o), z3.Not(none_missing)), z3.Not(VLok(e, o)))
     c = z3.Implies(z3.And(EXok(e, o), z3.Not(VLok(e, o)), missing(VLexc(e, o))),
                    z3.And(z3.IsMember(mkey(VLexc(e, o)), X), z3.Not(has(o, mkey(VLexc(e, o))))))
+    a2 = z3.Implies(z3.And(EXok(e, o), none_missing), z3.Or(EVok(e, o), z3.Not(missing(EVexc(e, o)))))
+    c2 = z3.Implies(z3.And(EXok(e, o), z3.Not(EVok(e, o)), missing(EVexc(e, o))),
+                    z3.And(z3.IsMember(mkey(EVexc(e, o)), X), z3.Not(has(o, mkey(EVexc(e, o))))))
     d = z3.Implies(z3.And(EXok(e, o), z3.Not(KSok(e, o)), missing(KSexc(e, o))),
                    z3.And(z3.IsMember(mkey(KSexc(e, o)), X), z3.Not(has(o, mkey(KSexc(e, o))))))
-    return z3.And(covers, a, c, d)
+    return z3.And(covers, a, c, d, a2, c2)
 
 
 def law_L5d(e, o):
@@ -498,6 +515,43 @@ def child_laws(which=("L1", "L2", "L3", "L4a", "L5", "L5d", "L6", "L6v")):
     return ax
 
 
+def tk_contract_axioms():
+    """contract of labrea.option._templated_keys(value, options[, explain]) - PROVED for its body by contracts/option_c04.py,
+    used modularly at its call sites (Option.keys / Option.explain)."""
+    v = z3.Const("v!t", Val)
+    o, o2 = z3.Consts("o!t o2!t", Opt)
+    k = z3.Const("k!t", Key)
+    x = TKexc(v, o)
+    return [
+        # TK1 present-only
+        z3.ForAll([v, o, k], z3.Implies(z3.And(TKok(v, o), z3.IsMember(k, TKset(v, o))), has(o, k)),
+                  patterns=[z3.MultiPattern(TKok(v, o), z3.IsMember(k, TKset(v, o)))]),
+        # TK-RD reads of the substitution are reported
+        z3.ForAll([v, o], z3.Implies(z3.And(TKok(v, o), resolve_ok(v, o)), subsetP(RD(v, o), TKset(v, o))), patterns=[TKok(v, o)]),
+        # TK2 stability under restriction
+        z3.ForAll([v, o, o2], z3.Implies(z3.And(TKok(v, o), sub(o2, o), agreeP(o, o2, TKset(v, o))),
+                                         z3.And(TKok(v, o2), TKset(v, o2) == TKset(v, o), TXset(v, o2) == TXset(v, o))),
+                  patterns=[z3.MultiPattern(TKok(v, o), sub(o2, o), TKok(v, o2))]),
+        # TK3 failure: a missing-key error naming an absent key; then the substitution fails as well
+        z3.ForAll([v, o], z3.Implies(z3.Not(TKok(v, o)), z3.And(is_cls["KeyNotFoundError"](x), missing(x), z3.Not(has(o, mkey(x))),
+                                                                z3.IsMember(mkey(x), TXset(v, o)), z3.Not(resolve_ok(v, o)))),
+                  patterns=[TKok(v, o)]),
+        # explain variant covers the keys variant; keys absent from explain's set... (L5-style clauses)
+        z3.ForAll([v, o], z3.Implies(TKok(v, o), subsetP(TKset(v, o), TXset(v, o))), patterns=[TKok(v, o)]),
+        z3.ForAll([v, o, k], z3.Implies(z3.And(TKok(v, o), z3.IsMember(k, TXset(v, o))), has(o, k)),
+                  patterns=[z3.MultiPattern(TKok(v, o), z3.IsMember(k, TXset(v, o)))]),
+        # TX-miss: a key whose absence makes the substitution fail is listed by the explain variant
+        z3.ForAll([v, o], z3.Implies(z3.And(z3.Not(resolve_ok(v, o)), is_cls["KeyError"](resolve_exc(v, o))),
+                                     z3.IsMember(exc_key(resolve_exc(v, o)), TXset(v, o))), patterns=[resolve_ok(v, o)]),
+        # and when every listed key is present the substitution cannot fail for a missing key
+        # TX-b: a listed key that is absent makes the keys variant (and hence the substitution) fail
+        z3.ForAll([v, o, k], z3.Implies(z3.And(z3.IsMember(k, TXset(v, o)), z3.Not(has(o, k))), z3.Not(TKok(v, o))),
+                  patterns=[z3.MultiPattern(z3.IsMember(k, TXset(v, o)), has(o, k))]),
+        # TK4: when every (transitively) referenced key can be looked up the substitution succeeds
+        z3.ForAll([v, o], z3.Implies(TKok(v, o), resolve_ok(v, o)), patterns=[TKok(v, o)]),
+    ]
+
+
 def call_axioms():
     f, a = z3.Consts("f! a!", Val)
     x = call_exc(f, a)
@@ -508,4 +562,4 @@ assume("A-pure.notmissing", "an exception raised by a user callable is not (and 
 
 
 def base_axioms():
-    return exc_hierarchy_axioms() + val_axioms() + opt_axioms() + agree_axioms() + resolve_axioms() + call_axioms()
+    return exc_hierarchy_axioms() + val_axioms() + opt_axioms() + agree_axioms() + resolve_axioms() + call_axioms() + tk_contract_axioms()
